@@ -5,7 +5,7 @@ import itertools
 from mc.core import UnitResult
 
 ID = "C16"
-PARTS = ['fix', 'ign', 'patch-alone']      # outcome classes every run must produce (guards against a part of the exploration silently not running)
+PARTS = ['fix', 'ign', 'patch-alone', 'hign']      # outcome classes every run must produce (guards against a part of the exploration silently not running)
 RULE = ("state = file text; transitions = apply one proposed Replacement (the first, as autofix does) with the real _apply_changes_to_lines, or one add-ignores step; the full reachable "
         "graph of every generated program is explored up to the fixpoint (revisited text or more than 2*#diagnostics+2 steps = non-termination). Programs: fix-bearing fragments "
         "(use_fstrings, missing_f, unused variable, too_many_positional_args, unused ignore) x enclosing statement shapes (return, dict display with ** unpacking, keyword-only "
@@ -79,10 +79,10 @@ def bounds(tier):
 def units(tier):
     nf = len(fix_programs(tier))
     ni = len(ignore_programs(tier))
-    return [("fix", tier, i, min(nf, i + 10)) for i in range(0, nf, 10)] + [("ign", tier, i, min(ni, i + 10)) for i in range(0, ni, 10)]
+    return [("fix", tier, i, min(nf, i + 10)) for i in range(0, nf, 10)] + [("ign", tier, i, min(ni, i + 10)) for i in range(0, ni, 10)] + [("hign", tier, i, i + HI_STEP) for i in range(0, 920, HI_STEP)]
 
 
-def _step(src, settings_key, settings, add_ignores=False, extra=()):
+def _step(src, settings_key, settings, add_ignores=False, extra=(), factory=None):
     """one check with change capture: returns (diagnostics, list of Replacement, text after applying the first change)"""
     import collections
     import qcore
@@ -93,7 +93,7 @@ def _step(src, settings_key, settings, add_ignores=False, extra=()):
     import io
     ck = get_checker(settings_key, settings=settings, extra=extra)
     tree = ast.parse(src)
-    mod = make_module(src)
+    mod = (factory or make_module)(src)
     try:
         changes = collections.defaultdict(list)
         with contextlib.redirect_stderr(io.StringIO()), contextlib.redirect_stdout(io.StringIO()):
@@ -329,10 +329,77 @@ def _ign(res, tier, lo, hi):
             res.sample({"program": src, "after_add_ignores": cur, "steps": steps})
 
 
+# ---- add-ignores on the programs of pyanalyze's own test-suite that have diagnostics (ref/harvest.py) -------------------------------------------
+HI_STEP = 40
+
+
+def _hprogs():
+    from props.c10_harvest import hcorpus
+    return [x for x in hcorpus() if MARK not in x[1]]
+
+
+def _hign(res, tier, lo, hi, only=None):
+    from pyanalyze.error_code import ErrorCode
+    from pa.run import test_module_factory
+    H = _hprogs()
+    fac = test_module_factory()
+    for pi in range(lo, min(hi, len(H))):
+        name, src, st = H[pi]
+        if only is not None and name != only:
+            continue
+        settings = {getattr(ErrorCode, k): v for k, v in (st or {}).items()}
+        settings.update({ErrorCode.unused_ignore: False, ErrorCode.bare_ignore: False})
+        key = "c16h" + repr(sorted((k.name, v) for k, v in settings.items()))
+        case = {"mode": "hign", "name": name, "order": 2 * 10 ** 6 + pi}
+        try:
+            D0, reps, new = _step(src, key, settings, add_ignores=True, factory=fac)
+        except Exception:
+            res.outcomes["hign:unloadable"] += 1
+            continue
+        res.transitions += 1
+        if not D0:
+            res.outcomes["hign:no-diagnostics"] += 1
+            continue
+        res.states += 1
+        limit = 2 * len(D0) + 2
+        seen, cur, steps, ok = [src], src, 0, True
+        codes = ",".join(sorted({d[0] for d in D0}))
+        two_codes = str(int(len({l for c, l, col in D0}) < len({(c, l) for c, l, col in D0})))
+        while reps and new != cur:
+            steps += 1
+            if new in seen or steps > limit or not _parses(new):
+                res.violation({"kind": "add-ignores-does-not-terminate" if _parses(new) else "add-ignores-breaks-syntax", "family": "harvested", "codes": codes, "two_codes_one_line": two_codes}, case,
+                              "add-ignores on test-suite program %s %s after %d steps; current text:\n%s" % (name, "does not reach a fixpoint" if _parses(new) else "produces text that does not compile", steps, new))
+                ok = False
+                break
+            seen.append(new)
+            cur = new
+            D1, reps, new = _step(cur, key, settings, add_ignores=True, factory=fac)
+            res.transitions += 1
+        res.validated += 1
+        if not ok:
+            res.outcomes["hign:diverges"] += 1
+            continue
+        Df, _, _ = _step(cur, key, settings, factory=fac)
+        problems = []
+        if Df:
+            problems.append("diagnostics-remain:" + ",".join(sorted({d[0] for d in Df})))
+        if ast.dump(ast.parse(cur)) != ast.dump(ast.parse(src)):
+            problems.append("ast-changed")
+        res.outcomes["hign:%s" % ("clean-fixpoint" if not problems else "bad-fixpoint")] += 1
+        if problems:
+            remaining = ",".join(sorted({d[0] for d in Df}))
+            res.violation({"kind": "add-ignores-bad-fixpoint", "family": "harvested", "problems": "+".join(p.split(":")[0] for p in problems), "remaining": remaining}, case,
+                          "add-ignores on test-suite program %s ends after %d steps with problems %s; text:\n%s" % (name, steps, problems, cur))
+    res.sample({"harvested_range": [lo, hi]})
+
+
 def run_unit(unit):
     kind, tier, lo, hi = unit
     res = UnitResult()
-    if kind == "fix":
+    if kind == "hign":
+        _hign(res, tier, lo, hi)
+    elif kind == "fix":
         _fix(res, tier, lo, hi)
     else:
         _ign(res, tier, lo, hi)
@@ -341,6 +408,11 @@ def run_unit(unit):
 
 def replay(case):
     res = UnitResult()
+    if case["mode"] == "hign":
+        names = [n for n, _, _ in _hprogs()]
+        i = names.index(case["name"])
+        _hign(res, "quick", i, i + 1, only=case["name"])
+        return list(res.viol.values())
     for tier in ("quick", "thorough"):
         if case["mode"] == "fix":
             ps = fix_programs(tier)
